@@ -538,4 +538,49 @@ example : (keepOrRemove exT [[115, 50], [115, 48]] true true).map (·.sqname) = 
 
 end AliTools
 
+/-! ## esl-afetch: "fetching returns the requested records" (`Miniapps/Afetch.lean`; complete stdout / output file compared) -/
+section Afetch
+open EaselModel.Msafile EaselModel.Miniapps.Ali
+
+/-- **without an index** the alignment written is one whose name or accession IS the key (for every reader, every file) -/
+theorem afetch_sequential_returns_requested (rd : List Bytes → Res FMsa × List Bytes) (key : Bytes) (fuel : Nat) (ls : List Bytes)
+    (m : FMsa) (h : seqFetch rd key fuel ls = some m) : m.name = some key ∨ m.acc = some key := by
+  have := seqFetch_matches rd key fuel ls m h
+  simpa [keyMatches] using this
+
+/-- … it is the FIRST such alignment of the file: a named record that does not match is passed over, a matching one ends
+    the search (what follows it is never parsed, so damage behind the requested record does not matter) -/
+theorem afetch_sequential_first_match (rd : List Bytes → Res FMsa × List Bytes) (key : Bytes) (fuel : Nat) (ls rest : List Bytes)
+    (m : FMsa) (h : rd ls = (.ok m, rest)) (hn : m.name.isSome = true) :
+    seqFetch rd key (fuel + 1) ls = if keyMatches key m then some m else seqFetch rd key fuel rest := by
+  by_cases hk : keyMatches key m = true
+  · simp [hk, seqFetch_first rd key fuel ls rest m h hn hk]
+  · have hk' : keyMatches key m = false := by simpa using hk
+    simp [hk', seqFetch_skip rd key fuel ls rest m h hn hk']
+
+/-- **with an index** the record found is a record of the file whose name or accession is the key, names before accessions -/
+theorem afetch_indexed_returns_requested (recs : List (FMsa × List Bytes)) (key : Bytes) (r : FMsa × List Bytes)
+    (h : ssiFind recs key = some r) : r ∈ recs ∧ (r.1.name = some key ∨ r.1.acc = some key) := by
+  have := ssiFind_mem recs key r h
+  exact ⟨this.1, by simpa [keyMatches] using this.2⟩
+
+theorem afetch_indexed_name_before_accession (recs : List (FMsa × List Bytes)) (key : Bytes) (r : FMsa × List Bytes)
+    (h : recs.find? (fun r => r.1.name == some key) = some r) : ssiFind recs key = some r := ssiFind_name_first recs key r h
+
+/-- **verbatim echo** (index, Stockholm → Stockholm / Pfam → Pfam): the output is the record's own lines from its offset
+    up to and including its first `//` line, each ended by one LF — no line of the NEXT record, none dropped, none altered -/
+theorem afetch_echo_is_record_text (span : List Bytes) (out : Bytes) (h : regurgitate span = some out) :
+    ∃ pre l post, span = pre ++ l :: post ∧ isTerminator l = true ∧ (∀ x ∈ pre, isTerminator x = false) ∧
+      out = (pre ++ [l]).flatMap (fun x => x ++ [10]) := regurgitate_eq span out h
+
+/-- non-vacuity: a two-record file; by name, by accession, and the name-vs-accession tie with and without an index -/
+def exSto2 : Bytes := str "# STOCKHOLM 1.0\n#=GF ID a1\n#=GF AC b2\ns1 AC\n//\n\n# STOCKHOLM 1.0\n#=GF ID b2\ns1 GG\n  //\n"
+example : afetchOne { infmt := "stockholm" } exSto2 (str "b2") = some (str "# STOCKHOLM 1.0\n#=GF ID a1\n#=GF AC b2\n\ns1 AC\n//\n") := by
+  decide +kernel
+example : (spansOf "stockholm" exSto2).map (fun recs => (ssiFind recs (str "b2")).bind (fun r => regurgitate r.2))
+    = some (some (str "\n# STOCKHOLM 1.0\n#=GF ID b2\ns1 GG\n  //\n")) := by decide +kernel
+example : (spansOf "stockholm" exSto2).map indexable = some false := by decide +kernel
+
+end Afetch
+
 end EaselModel.Props.C13
